@@ -4,6 +4,7 @@ import (
 	"bytes"
 	"context"
 	"encoding/binary"
+	"errors"
 	"fmt"
 	"io"
 	"os"
@@ -15,6 +16,7 @@ import (
 	"time"
 
 	"github.com/PowerDNS/lightningstream/config"
+	"github.com/PowerDNS/lightningstream/lmdbenv"
 	"github.com/PowerDNS/lightningstream/snapshot"
 	"github.com/PowerDNS/lightningstream/syncer"
 	"github.com/PowerDNS/lightningstream/syncer/events"
@@ -527,6 +529,15 @@ func corruptBlobsOnRealLoops(out *AreaOut) error {
 		done := make(chan error, 1)
 		go func() { done <- sy.Sync(ctx) }()
 		bad := ""
+		{
+			// a perfectly decodable snapshot whose METADATA strings are not valid UTF-8 (protobuf strings are not
+			// validated by the decoder): merged like any other; nothing may choke on the strings (labels, logs)
+			nD, dD := wiringSnap("d", base, "fromd", "v", "\xff\xfe-host")
+			_ = st.Store(ctx0, nD, dD)
+			if !waitKey(env, "fromd", 3*time.Second) {
+				bad = "a decodable snapshot of instance d whose metadata strings are invalid UTF-8 was not merged within 3 s"
+			}
+		}
 		for round := 0; round < 3 && bad == ""; round++ {
 			t := base.Add(time.Duration(round) * time.Minute)
 			nA, dA := mkSnap("b", t, fmt.Sprintf("a%d", round), "v")
@@ -794,4 +805,435 @@ func firstLine(s string) string {
 		return s[:200]
 	}
 	return s
+}
+
+// boundarySizesSend (C06, oracle only: too large for the model's literals): SendOnce on an LMDB whose values have
+// lengths around the varint boundaries of the snapshot encoding (127/128, 16383/16384, with and without the 24-byte
+// header counted): the uploaded snapshot decodes, and every entry carries exactly the stored value.
+func boundarySizesSend(out *AreaOut) error {
+	sizes := []int{0, 1, 103, 104, 127, 128, 129, 16359, 16360, 16361, 16383, 16384, 16385, 20000}
+	for _, native := range []bool{true, false} {
+		out.OracleN++
+		env, cleanup, err := newEnv()
+		if err != nil {
+			return err
+		}
+		var ops []appOp
+		for _, n := range sizes {
+			if n == 0 && !native {
+				continue // empty application values in shadow mode: F6 / F14 have their own probes
+			}
+			ops = append(ops, appOp{DBI: "app", Key: []byte(fmt.Sprintf("k%05d", n)), Val: bytes.Repeat([]byte{byte('a' + n%26)}, n)})
+		}
+		if err := applyApp(env, native, uint64(time.Now().UnixNano()), ops); err != nil {
+			cleanup()
+			return err
+		}
+		st := memory.New()
+		sy, err := newSyncer(env, st, syncerOpts{Native: native, Instance: "a"})
+		if err != nil {
+			cleanup()
+			return err
+		}
+		bad := ""
+		if _, err := sy.SendOnce(context.Background(), env); err != nil {
+			bad = "SendOnce failed: " + err.Error()
+		} else {
+			ls, _ := st.List(context.Background(), "")
+			names := ls.Names()
+			sort.Strings(names)
+			blob, _ := st.Load(context.Background(), names[len(names)-1])
+			sn, err := snapshot.LoadData(blob)
+			if err != nil {
+				bad = "the uploaded snapshot does not decode: " + err.Error()
+			} else {
+				ds, derr := decodeSnapDBIs(sn)
+				got := map[string][]byte{}
+				for _, d := range ds {
+					if d.Name == "app" {
+						for _, e := range d.Entries {
+							got[string(e.Key)] = e.Value
+						}
+					}
+				}
+				if derr != nil {
+					bad = "reading the entries of the uploaded snapshot failed: " + derr.Error()
+				}
+				for _, o := range ops {
+					if v, ok := got[string(o.Key)]; bad == "" && (!ok || !bytes.Equal(v, o.Val)) {
+						bad = fmt.Sprintf("entry %s: stored value of %d bytes, the snapshot has present=%v with %d bytes", o.Key, len(o.Val), ok, len(v))
+					}
+				}
+			}
+		}
+		cleanup()
+		hist(out.Hist, fmt.Sprintf("boundary-value-sizes/native=%v", native))
+		if bad != "" {
+			for _, pid := range []string{"C06", "C07"} {
+				out.Oracle = append(out.Oracle, OracleFailure{pid, "value-lengths-at-varint-boundaries", fmt.Sprintf("native=%v, values of %v bytes: %s", native, sizes, bad), map[string]any{"native": native}})
+			}
+		}
+	}
+	return nil
+}
+
+// ---- more scenarios on the real receiver / real loop (round 8) ----
+
+type flakyListStore struct {
+	simpleblob.Interface
+	mu        sync.Mutex
+	failLists []error // errors for the next List calls (one each)
+	loadDelay map[string]time.Duration
+	lists     int
+}
+
+func (s *flakyListStore) List(ctx context.Context, prefix string) (simpleblob.BlobList, error) {
+	s.mu.Lock()
+	s.lists++
+	if len(s.failLists) > 0 {
+		err := s.failLists[0]
+		s.failLists = s.failLists[1:]
+		s.mu.Unlock()
+		return nil, err
+	}
+	s.mu.Unlock()
+	return s.Interface.List(ctx, prefix)
+}
+
+func (s *flakyListStore) Load(ctx context.Context, name string) ([]byte, error) {
+	s.mu.Lock()
+	var d time.Duration
+	for p, v := range s.loadDelay {
+		if strings.HasPrefix(name, p) {
+			d = v
+		}
+	}
+	s.mu.Unlock()
+	if d > 0 {
+		select {
+		case <-time.After(d):
+		case <-ctx.Done():
+			return nil, ctx.Err()
+		}
+	}
+	return s.Interface.Load(ctx, name)
+}
+
+func wiringSnap(inst string, ts time.Time, key, val string, metaInst string) (string, []byte) {
+	d := snapshot.NewDBI()
+	d.SetName("app")
+	d.Append(snapshot.KV{Key: []byte(key), Value: []byte(val), TimestampNano: uint64(ts.UnixNano())})
+	sn := &snapshot.Snapshot{FormatVersion: 3, CompatVersion: 1, Meta: snapshot.Meta{DatabaseName: dbName, InstanceID: metaInst, Hostname: metaInst, TimestampNano: uint64(ts.UnixNano())}, Databases: []*snapshot.DBI{d}}
+	data, _, _ := snapshot.DumpData(sn)
+	return snapshot.Name(dbName, inst, "GX", ts), data
+}
+
+func envHasKey(env *lmdb.Env, dbi, key string) bool {
+	found := false
+	_ = env.View(func(txn *lmdb.Txn) error {
+		d, err := txn.OpenDBI(dbi, 0)
+		if err != nil {
+			return nil
+		}
+		_, err = txn.Get(d, []byte(key))
+		found = err == nil
+		return nil
+	})
+	return found
+}
+
+// receiverRunSurvivesListErrors (C16): the polling loop of the receiver keeps polling after a listing that failed
+// with whatever error the storage client produced — also one that wraps a deadline / cancellation of the CLIENT's
+// own request while the receiver's context is alive: a snapshot published afterwards is delivered.
+func receiverRunSurvivesListErrors(out *AreaOut) {
+	for _, lerr := range []error{errors.New("connection reset"), fmt.Errorf("list objects: %w", context.DeadlineExceeded), fmt.Errorf("request: %w", context.Canceled)} {
+		out.OracleN++
+		st := &flakyListStore{Interface: memory.New()}
+		l := logrus.New()
+		l.SetOutput(io.Discard)
+		r := receiver.New(st, config.Config{StoragePollInterval: 3 * time.Millisecond, StorageRetryInterval: 2 * time.Millisecond, MemoryDownloadedSnapshots: 2, MemoryDecompressedSnapshots: 2},
+			dbName, l, "self", events.New(), hooks.New())
+		ctx, cancel := context.WithCancel(context.Background())
+		done := make(chan error, 1)
+		go func() { done <- r.Run(ctx) }()
+		time.Sleep(20 * time.Millisecond)
+		st.mu.Lock()
+		st.failLists = []error{lerr}
+		st.mu.Unlock()
+		time.Sleep(30 * time.Millisecond)
+		name, data := wiringSnap("b", time.Now().Add(-time.Minute), "k", "v", "b")
+		_ = st.Interface.Store(context.Background(), name, data)
+		delivered := false
+		for dl := time.Now().Add(3 * time.Second); time.Now().Before(dl) && !delivered; time.Sleep(5 * time.Millisecond) {
+			if inst, u := r.Next(); inst != "" {
+				delivered = inst == "b"
+				u.Close()
+			}
+		}
+		returned := false
+		select {
+		case <-done:
+			returned = true
+		default:
+		}
+		cancel()
+		hist(out.Hist, "receiver-run-after-list-error")
+		if !delivered {
+			out.Oracle = append(out.Oracle, OracleFailure{"C16", "polling-survives-listing-errors", fmt.Sprintf("Receiver.Run: one List call failed with %q (the receiver's own context alive); a snapshot published afterwards was not delivered within 3 s (Run had returned: %v)", lerr, returned), map[string]any{"error": lerr.Error()}})
+		}
+	}
+}
+
+// deltaBeforeSnapshot (C16): run-once, no InstanceReady hook; an embedding application feeds a NON-snapshot update
+// for instance b through OtherUpdateSource while b's start-up snapshot is still being downloaded: the run does not
+// end before that snapshot has been merged.
+func deltaBeforeSnapshot(out *AreaOut) error {
+	out.OracleN++
+	env, cleanup, err := newEnv()
+	if err != nil {
+		return err
+	}
+	defer cleanup()
+	base := time.Now().Add(-time.Hour)
+	mem := memory.New()
+	name, data := wiringSnap("b", base, "fromb", "v", "b")
+	_ = mem.Store(context.Background(), name, data)
+	st := &flakyListStore{Interface: mem, loadDelay: map[string]time.Duration{dbName + "__b__": 400 * time.Millisecond}}
+	updCh := make(chan snapshot.Update, 2)
+	hk := hooks.New()
+	hk.OtherUpdateSource = func() <-chan snapshot.Update { return updCh }
+	sy, err := newSyncer(env, st, syncerOpts{Native: true, Instance: "a", SyncerOpt: syncer.Options{Hooks: hk}, Mod: func(c *config.Config, lc *config.LMDB) {
+		c.OnlyOnce = true
+		c.LMDBPollInterval = 2 * time.Millisecond
+		c.StoragePollInterval = 3 * time.Millisecond
+	}})
+	if err != nil {
+		return err
+	}
+	updCh <- snapshot.Update{
+		Snapshot: &snapshot.Snapshot{FormatVersion: 3, CompatVersion: 1, Meta: snapshot.Meta{DatabaseName: dbName, InstanceID: "b"}},
+		NameInfo: snapshot.NameInfo{Kind: "delta", InstanceID: "b", SyncerName: dbName, Timestamp: base.Add(time.Second)},
+	}
+	ctx, cancel := context.WithCancel(context.Background())
+	defer cancel()
+	done := make(chan error, 1)
+	go func() { done <- sy.Sync(ctx) }()
+	select {
+	case <-done:
+	case <-time.After(6 * time.Second):
+		hist(out.Hist, "delta-before-snapshot/not-returned")
+		out.Oracle = append(out.Oracle, OracleFailure{"C16", "once-exits", "only_once with a delta update fed through OtherUpdateSource: Sync had not returned after 6 s", nil})
+		return nil
+	}
+	hist(out.Hist, "delta-before-snapshot/returned")
+	if !envHasKey(env, "app", "fromb") {
+		out.Oracle = append(out.Oracle, OracleFailure{"C16", "run-once-not-earlier", "only_once, no InstanceReady hook: a non-snapshot update for instance b arrived through OtherUpdateSource while b's start-up snapshot was still downloading (400 ms); Sync returned WITHOUT having merged that snapshot", nil})
+	}
+	return nil
+}
+
+// ownNewestCorrupt (C05): the instance's own name has an older decodable snapshot (with key k1) and a NEWER
+// undecodable one; the instance restarts with an emptied LMDB, its application writes; listings after the start-up
+// one are slow (so the loop runs many passes between "marked corrupt" and the next listing). Every snapshot this
+// process uploads contains k1: nothing is uploaded before the own newest DECODABLE snapshot is merged.
+func ownNewestCorrupt(out *AreaOut) error {
+	for _, native := range []bool{true, false} {
+		out.OracleN++
+		env, cleanup, err := newEnv()
+		if err != nil {
+			return err
+		}
+		base := time.Now().Add(-time.Hour)
+		mem := memory.New()
+		n1, d1 := wiringSnap("a", base, "k1", "v", "a")
+		_ = mem.Store(context.Background(), n1, d1)
+		n2, _ := wiringSnap("a", base.Add(time.Minute), "x", "x", "a")
+		_ = mem.Store(context.Background(), n2, []byte("not a gzip stream"))
+		st := &slowLaterLists{Interface: mem, delay: 250 * time.Millisecond}
+		_ = applyApp(env, native, uint64(time.Now().UnixNano()), []appOp{{DBI: "app", Key: []byte("local"), Val: []byte("w")}})
+		sy, err := newSyncer(env, st, syncerOpts{Native: native, Instance: "a", Mod: func(c *config.Config, lc *config.LMDB) {
+			c.LMDBPollInterval = 2 * time.Millisecond
+			c.StoragePollInterval = 3 * time.Millisecond
+			c.StorageRetryInterval = 2 * time.Millisecond
+		}})
+		if err != nil {
+			cleanup()
+			return err
+		}
+		ctx, cancel := context.WithCancel(context.Background())
+		done := make(chan error, 1)
+		go func() { done <- sy.Sync(ctx) }()
+		time.Sleep(1200 * time.Millisecond)
+		cancel()
+		select {
+		case <-done:
+		case <-time.After(5 * time.Second):
+		}
+		bad := ""
+		uploads := 0
+		if ls, err := mem.List(context.Background(), dbName+"__a__"); err == nil {
+			for _, nm := range ls.Names() {
+				if nm == n1 || nm == n2 {
+					continue
+				}
+				uploads++
+				blob, _ := mem.Load(context.Background(), nm)
+				sn, err := snapshot.LoadData(blob)
+				if err != nil {
+					continue
+				}
+				has := false
+				ds, _ := decodeSnapDBIs(sn)
+				for _, d := range ds {
+					for _, e := range d.Entries {
+						if d.Name == "app" && string(e.Key) == "k1" {
+							has = true
+						}
+					}
+				}
+				if !has && bad == "" {
+					bad = nm
+				}
+			}
+		}
+		cleanup()
+		hist(out.Hist, fmt.Sprintf("own-newest-corrupt/native=%v/uploads=%d", native, min(uploads, 2)))
+		if bad != "" {
+			out.Oracle = append(out.Oracle, OracleFailure{"C05", "own-first", fmt.Sprintf("native=%v: the own name has a decodable snapshot with key k1 and a newer undecodable blob; restarted with an emptied LMDB and a local write, the process uploaded %s, which does not contain k1 (uploaded before the own newest decodable snapshot was merged)", native, bad), map[string]any{"native": native}})
+		}
+	}
+	return nil
+}
+
+// slowLaterLists answers the first List at once and every later one after a delay
+type slowLaterLists struct {
+	simpleblob.Interface
+	mu    sync.Mutex
+	n     int
+	delay time.Duration
+}
+
+func (s *slowLaterLists) List(ctx context.Context, prefix string) (simpleblob.BlobList, error) {
+	s.mu.Lock()
+	s.n++
+	first := s.n == 1
+	s.mu.Unlock()
+	if !first {
+		select {
+		case <-time.After(s.delay):
+		case <-ctx.Done():
+			return nil, ctx.Err()
+		}
+	}
+	return s.Interface.List(ctx, prefix)
+}
+
+// sweeperAfterFailedPass (C13): one long-lived Sweeper on a freshly opened environment; its first pass fails on a
+// value that does not parse (the write transaction in which it first opened that DBI aborts); the application then
+// opens its own DBI and repairs the bad value; the second pass removes the expired markers of the shadow DBI and
+// leaves the application's DBI alone (non-native mode) — whatever DBI handles the first pass left behind.
+func sweeperAfterFailedPass(out *AreaOut) error {
+	out.OracleN++
+	dir, err := os.MkdirTemp("", "lsverif_lmdb_")
+	if err != nil {
+		return err
+	}
+	defer os.RemoveAll(dir)
+	open := func() (*lmdb.Env, error) {
+		return lmdbenv.NewWithOptions(dir, lmdbenv.Options{Create: true, MaxDBs: 200, MapSize: 64 << 20})
+	}
+	env, err := open()
+	if err != nil {
+		return err
+	}
+	now := uint64(time.Now().UnixNano())
+	expired := swVal(now-uint64(49*time.Hour), 1, nil)
+	look := mkStored(now-uint64(72*time.Hour), 9, 1, 0, nil) // an application record that looks like an expired marker
+	err = env.Update(func(txn *lmdb.Txn) error {
+		sh, err := txn.OpenDBI(shadowPrefix+"zones", lmdb.Create)
+		if err != nil {
+			return err
+		}
+		for i := 0; i < 10; i++ {
+			if err := txn.Put(sh, []byte(fmt.Sprintf("gone-%02d", i)), expired, 0); err != nil {
+				return err
+			}
+		}
+		if err := txn.Put(sh, []byte("bad"), []byte("short"), 0); err != nil {
+			return err
+		}
+		a, err := txn.OpenDBI("zones", lmdb.Create)
+		if err != nil {
+			return err
+		}
+		for i := 0; i < 10; i++ {
+			if err := txn.Put(a, []byte(fmt.Sprintf("rec-%02d", i)), look, 0); err != nil {
+				return err
+			}
+		}
+		return nil
+	})
+	env.Close()
+	if err != nil {
+		return err
+	}
+	env, err = open() // a new process: no DBI handle is open yet
+	if err != nil {
+		return err
+	}
+	defer env.Close()
+	sw := sweeper.New("verif-2pass", config.Sweeper{Enabled: true, RetentionDays: 1, LockDuration: time.Second, ReleaseDuration: time.Millisecond}, env, swLogger, false)
+	ctx := context.Background()
+	err1 := sw.VerifSweepOnce(ctx)
+	// the application: first use of its own DBI in this process, then the repair of the bad shadow value
+	_ = env.Update(func(txn *lmdb.Txn) error {
+		a, err := txn.OpenDBI("zones", 0)
+		if err != nil {
+			return err
+		}
+		return txn.Put(a, []byte("rec-new"), mkStored(now, 3, 0, 0, []byte("a new record")), 0)
+	})
+	_ = env.Update(func(txn *lmdb.Txn) error {
+		sh, err := txn.OpenDBI(shadowPrefix+"zones", 0)
+		if err != nil {
+			return err
+		}
+		return txn.Del(sh, []byte("bad"), nil)
+	})
+	err2 := sw.VerifSweepOnce(ctx)
+	left, recs := 0, 0
+	_ = env.View(func(txn *lmdb.Txn) error {
+		if sh, err := txn.OpenDBI(shadowPrefix+"zones", 0); err == nil {
+			ps, _ := dumpDBI(txn, sh)
+			for _, p := range ps {
+				if bytes.Equal(p.V, expired) {
+					left++
+				}
+			}
+		}
+		if a, err := txn.OpenDBI("zones", 0); err == nil {
+			ps, _ := dumpDBI(txn, a)
+			for _, p := range ps {
+				if bytes.Equal(p.V, look) {
+					recs++
+				}
+			}
+		}
+		return nil
+	})
+	hist(out.Hist, fmt.Sprintf("second-pass-after-failed-pass/first-failed=%v", err1 != nil))
+	if os.Getenv("LSVERIF_DEBUG") != "" {
+		fmt.Fprintf(os.Stderr, "DEBUG second pass: err1=%v err2=%v left=%d recs=%d\n", err1, err2, left, recs)
+	}
+	in := map[string]any{"first_pass_error": fmt.Sprint(err1), "second_pass_error": fmt.Sprint(err2)}
+	if recs != 10 {
+		out.Oracle = append(out.Oracle, OracleFailure{"C13", "shadow-scope", fmt.Sprintf("non-native mode, second pass of a Sweeper whose first pass failed on an unparsable shadow value: %d of the application's 10 records in DBI zones are left (the sweeper must not touch application DBIs)", recs), in})
+	}
+	if err2 != nil {
+		out.Oracle = append(out.Oracle, OracleFailure{"C13", "removes-every-expired-marker", fmt.Sprintf("second pass, after the bad value was repaired (every value of the shadow DBI parses now), failed: %v; %d of 10 expired markers are still there", err2, left), in})
+	}
+	if err2 == nil && left > 0 {
+		out.Oracle = append(out.Oracle, OracleFailure{"C13", "removes-every-expired-marker", fmt.Sprintf("second pass (after the bad value was repaired) ended without error, %d of 10 expired markers of the shadow DBI are still there", left), in})
+	}
+	return nil
 }
